@@ -229,9 +229,10 @@ func main() {
 			if m.kind == "b" {
 				k.to = 0
 			}
-			if seen[k] || m.from == b.Trusted {
+			if seen[k] {
 				continue
 			}
+			fromTrusted := m.from == b.Trusted && b.Trusted != 0 // the anchor deviates: only blame and no-crash are owed (ProtoCore)
 			seen[k] = true
 			tree, err := proto.Parse(m.data)
 			if err != nil {
@@ -321,7 +322,7 @@ func main() {
 				w.Emit(map[string]any{"a": "tamper", "case": caseNo, "k": fmt.Sprintf("%s:r%d%s:%s:%s", sc.Name, m.round, m.kind, c.leaf, c.op), "proto": sc.Name, "round": m.round, "kind": m.kind,
 					"from": uint64(m.from), "to": uint64(m.to), "leaf": c.leaf, "path": c.path, "idx": lastIndex(c.path), "op": c.op, "changed": changed,
 					"rejects": rejectsJ(res.Rejects), "completed": ids(comp), "out": bt.Outputs(comp), "stop": res.StopRound,
-					"parties": ids(all), "senderIsPrev": bt.IsPrev == nil || bt.IsPrev[m.from]})
+					"parties": ids(all), "senderIsPrev": bt.IsPrev == nil || bt.IsPrev[m.from], "fromTrusted": fromTrusted, "prev": prevOf(bt, all)})
 			}
 		}
 		// ---- consistent strategies: the deviator deals a DIFFERENT value consistently (verification vector entry 0 times g^delta,
@@ -394,7 +395,7 @@ func main() {
 				w.Emit(map[string]any{"a": "tamper", "case": caseNo, "k": fmt.Sprintf("%s:r%d:strategy:%s", sc.Name, stg.round, stratName(stg.round, stg.claim)), "proto": sc.Name, "round": stg.round, "kind": "b",
 					"from": uint64(dev), "to": 0, "leaf": "/strategy", "path": "/strategy", "idx": -1, "op": stratName(stg.round, stg.claim), "changed": touched,
 					"rejects": rejectsJ(res.Rejects), "completed": ids(comp), "out": bt.Outputs(comp), "stop": res.StopRound,
-					"parties": ids(all), "senderIsPrev": bt.IsPrev == nil || bt.IsPrev[dev]})
+					"parties": ids(all), "senderIsPrev": bt.IsPrev == nil || bt.IsPrev[dev], "fromTrusted": false})
 			}
 		}
 		// ---- redistribution: the zero sharing of round 1 consistently re-dealt as a sharing of delta over the unanimity programme
@@ -468,7 +469,7 @@ func main() {
 				w.Emit(map[string]any{"a": "tamper", "case": caseNo, "k": k, "proto": sc.Name, "round": 1, "kind": "b",
 					"from": uint64(dev), "to": 0, "leaf": "/strategy", "path": "/strategy", "idx": -1, "op": "rezero", "changed": touched,
 					"rejects": rejectsJ(res.Rejects), "completed": ids(comp), "out": bt.Outputs(comp), "stop": res.StopRound,
-					"parties": ids(all), "senderIsPrev": true})
+					"parties": ids(all), "senderIsPrev": true, "fromTrusted": false})
 			}
 		}
 	}
@@ -485,4 +486,16 @@ func stratName(round int, claim string) string {
 		return "redealClaim"
 	}
 	return "redeal"
+}
+
+
+// prevOf lists the parties that hold a share of the previous epoch (all parties where the scenario has no such notion).
+func prevOf(b *scen.Built, all []ID) []uint64 {
+	out := []uint64{}
+	for _, id := range all {
+		if b.IsPrev == nil || b.IsPrev[id] {
+			out = append(out, uint64(id))
+		}
+	}
+	return out
 }
